@@ -75,15 +75,36 @@ def run_scenario(sc):
                           "-o", "addopts=", "--timeout=300"])
         return {"rc": int(rc)}
     if kind == "example":
-        path, _, func = arg.rpartition(":")
-        full = os.path.join(REPO, path)
+        import inspect
+        full = os.path.join(REPO, arg)
         spec = importlib.util.spec_from_file_location("verif_example", full)
         mod = importlib.util.module_from_spec(spec)
         sys.modules["verif_example"] = mod
         sys.path.insert(0, os.path.dirname(full))
+        sys.argv = [full]
+        try:
+            import matplotlib
+            matplotlib.use("Agg")
+        except Exception:
+            pass
         spec.loader.exec_module(mod)
-        getattr(mod, func)()
-        return {"rc": 0}
+        ran = []
+        for name, fn in inspect.getmembers(mod, inspect.isfunction):
+            if fn.__module__ != "verif_example" or not (name == "run" or name.startswith("run_")):
+                continue
+            ps = list(inspect.signature(fn).parameters.values())
+            req = [p for p in ps if p.default is inspect._empty and p.kind in (p.POSITIONAL_ONLY, p.POSITIONAL_OR_KEYWORD, p.KEYWORD_ONLY)]
+            if req:
+                continue
+            if ps and ps[0].name == "args":
+                fn([])
+            else:
+                fn()
+            ran.append(name)
+        if not ran and hasattr(mod, "main"):
+            mod.main()
+            ran.append("main")
+        return {"rc": 0, "ran": ran}
     if kind == "engine":
         from harness.engine_lib import random_program, World
         rng = random.Random(int(arg))
@@ -124,7 +145,7 @@ def main():
     except BaseException as e:  # noqa: BLE001
         err = f"{type(e).__name__}: {e}"
     rec.uninstall()
-    res = {"scenario": sc, "err": err, "info": info, "sims": rec.digest(),
+    res = {"scenario": sc, "err": err, "info": info, "sims": rec.digest(), "classes": rec.class_names(),
            "hashseed": os.environ.get("PYTHONHASHSEED"), "prior": prior, "fakewall": "--fakewall" in args}
     with open(out, "w") as f:
         json.dump(res, f)
